@@ -287,6 +287,12 @@ func runHeader(c headerCase) harness.Result {
 			if !validException(enc) {
 				return harness.Fail("classifier accepted %x; dispatcher error %v encodes to %x which is not a valid exception ADU", hdr, perr, enc)
 			}
+			// a valid exception reply to THIS frame: its transaction id, its unit id, its function code with the high bit set
+			// (judged for the ten supported functions; what the dispatcher says about other function codes that the classifier was
+			// told to let through is not constrained beyond the shape checked above)
+			if spec.IsSupported(uint8(fc)) && (enc[0] != hdr[0] || enc[1] != hdr[1] || enc[6] != hdr[6] || enc[7] != hdr[7]|0x80) {
+				return harness.Fail("classifier accepted %x; dispatcher error %v encodes to %x, which is not an exception reply to that frame (transaction id / unit id / function differ)", hdr, perr, enc)
+			}
 			// an error kept from an earlier rejection must still encode to what it encoded to then (two requests can be rejected
 			// before either exception is sent)
 			if heldErr != nil && string(heldErr.Bytes()) != string(heldEnc) {
@@ -309,10 +315,22 @@ func trunc(b []byte) []byte {
 	return b
 }
 
+// genProto: protocol id 0 half of the time, otherwise any value, with the values whose two bytes add up to 0 modulo 256 or are equal /
+// complementary as hot spots.
+func genProto(t *rapid.T) uint16 {
+	switch rapid.IntRange(0, 5).Draw(t, "proto_mode") {
+	case 0, 1, 2:
+		return 0
+	case 3:
+		return rapid.SampledFrom([]uint16{1, 0x0100, 0xFFFF, 0x01FF, 0xFF01, 0x8080, 0x02FE, 0x00FF, 0xFF00, 0x0101, 0x7F81}).Draw(t, "proto_hot")
+	}
+	return rapid.Uint16().Draw(t, "proto")
+}
+
 var chkHeader = harness.Define("classifier-headers",
 	func(t *rapid.T) headerCase {
 		return headerCase{
-			Proto:  rapid.SampledFrom([]uint16{0, 0, 0, 1, 0x0100, 0xFFFF}).Draw(t, "proto"),
+			Proto:  genProto(t),
 			Length: gen.U16(t, "length", []int{0, 1, 2, 3, 4, 5, 6, 7, 8, 9, 253, 254, 255, 256, 65535}),
 			Allow:  rapid.Bool().Draw(t, "allow"),
 			Bodies: true,
